@@ -7,7 +7,7 @@ use crate::world;
 use serde_json::{json, Value};
 use std::collections::{BTreeMap, BTreeSet};
 
-pub const MAX_REPORT_PER_CLASS: usize = 4;
+pub const MAX_REPORT_PER_CLASS: usize = 3;
 
 fn belongs(id: &str, class: &str) -> bool {
     match id {
@@ -123,8 +123,7 @@ pub fn aggregate(
         let ntypes = distinct_types.len();
         let mut seen = BTreeSet::new();
         for p in &ps {
-            let relevant = if class.contains("result") || class.contains("post-return") { &p["v2"] } else { &p["v1"] };
-            let key = format!("{class}:{}:{}", p["ty"].as_str().unwrap_or(""), relevant.as_str().unwrap_or(""));
+            let key = format!("{class}:{}", p["ty"].as_str().unwrap_or(""));
             if !seen.insert(key.clone()) {
                 continue;
             }
@@ -220,13 +219,14 @@ pub fn run_resources(depth: usize) -> ResourceOutcome {
         }
         let from = r["from"].as_u64().unwrap() as usize;
         let autodrop = r["autodrop"].as_bool().unwrap();
-        let mut note = |key: String, hi: usize, msg: String| {
+        let mut note_n = |key: String, hi: usize, msg: String, n: usize| {
             let e = by_key.entry(key).or_insert((hi, autodrop, msg.clone(), 0));
-            e.3 += 1;
-            if hists[hi].len() < hists[e.0].len() {
+            e.3 += n;
+            if hists[hi].len() < hists[e.0].len() || (hists[hi].len() == hists[e.0].len() && hi < e.0) {
                 *e = (hi, autodrop, msg, e.3);
             }
         };
+        let mut note = |key: String, hi: usize, msg: String| note_n(key, hi, msg, 1);
         for c in r["crashes"].as_array().unwrap() {
             let hi = from + c["history"].as_u64().unwrap() as usize;
             note("own:resource:trap".into(), hi, format!("generated C died ({}) at step {} of the history", c["what"].as_str().unwrap_or("?"), c["step"]));
@@ -237,7 +237,7 @@ pub fn run_resources(depth: usize) -> ResourceOutcome {
         }
         for p in res["problems"].as_array().unwrap() {
             let hi = from + p[0].as_u64().unwrap() as usize;
-            note(format!("own:{}", p[1].as_str().unwrap()), hi, p[2].as_str().unwrap().to_string());
+            note_n(format!("own:{}", p[1].as_str().unwrap()), hi, p[2].as_str().unwrap().to_string(), p[3].as_u64().unwrap_or(1) as usize);
         }
         calls += res["calls"].as_u64().unwrap_or(0);
         dtor_runs += res["dtor_runs"].as_u64().unwrap_or(0);
@@ -337,7 +337,10 @@ pub fn main(id: &str) {
         replay(id, &d);
     }
     let universe = std::env::var("E4_UNIVERSE").unwrap_or_else(|_| run.pick("quick", "thorough").to_string());
-    let configs = if run.thorough() { CConfig::all() } else { vec![CConfig::DEFAULT] };
+    let mut configs = if run.thorough() { CConfig::all() } else { vec![CConfig::DEFAULT] };
+    if let Ok(c) = std::env::var("E4_CONFIGS") {
+        configs = c.split(',').map(|n| CConfig::from_name(n).unwrap_or_else(|| vcommon::machinery("bad E4_CONFIGS"))).collect();
+    }
     let chunk = run.pick(32, 120);
     let out = run_universe(id, &universe, &configs, chunk, true, run.seed);
     let mut machinery = out.machinery;
@@ -369,7 +372,10 @@ pub fn main(id: &str) {
     cov["evaluations"] = json!(evaluations);
     cov["distinct_nontrivial"] = json!(distinct);
     cov["rule"] = json!(rule);
-    cov["exhaustive"] = json!(true);
+    // exhaustive = nothing cut the enumeration: no function abandoned after repeated crashes, every
+    // enumerated resource history executed in both modes (crashed ones count as executed: observed)
+    let abandoned = cov["types_skipped"].as_array().map(|a| a.iter().any(|s| s["reason"].as_str().unwrap_or("").starts_with("remaining cases"))).unwrap_or(false);
+    cov["exhaustive"] = json!(!abandoned);
     let assumptions = vec![
         "native execution on x86-64: pointer width 8 only (refabi's width-8 extrapolation: pointers and lengths are 8 bytes, 8-aligned); the 32-bit layout is C01's subject".to_string(),
         "values are judged by refabi (val_eq: any NaN equals any NaN of the same width); joined i32 slots are compared after wrapping to 32 bits, as lift does".to_string(),
